@@ -309,7 +309,7 @@ func (handler *Handler) ProxyClientConnection(ctx context.Context, errCh chan<- 
 						"from database")
 					handler.logger.Debugln("Send error to db")
 
-					if err := handler.sendClientError(QueryExecutionWasInterrupted, packet); err != nil {
+					if err := handler.answerClientWithError(QueryExecutionWasInterrupted, packet); err != nil {
 						handler.logger.WithError(err).WithField(logging.FieldKeyEventCode, logging.EventCodeErrorResponseConnectorCantWriteToClient).
 							Debugln("Can't write response with error to client")
 					}
@@ -406,7 +406,7 @@ func (handler *Handler) ProxyClientConnection(ctx context.Context, errCh chan<- 
 			if err := handler.acracensor.HandleQuery(query); err != nil {
 				censorSpan.End()
 				clientLog.WithError(err).WithField(logging.FieldKeyEventCode, logging.EventCodeErrorCensorQueryIsNotAllowed).Errorln("Error on AcraCensor check")
-				if err := handler.sendClientError(QueryExecutionWasInterrupted, packet); err != nil {
+				if err := handler.answerClientWithError(QueryExecutionWasInterrupted, packet); err != nil {
 					handler.logger.WithError(err).WithField(logging.FieldKeyEventCode, logging.EventCodeErrorResponseConnectorCantWriteToClient).
 						Errorln("Can't write response with error to client")
 				}
@@ -1111,7 +1111,20 @@ func (handler *Handler) ProxyDatabaseConnection(ctx context.Context, errCh chan<
 	}
 }
 
-// sendClientError sends an `QueryInterruptedError` with a custom message
+// answerClientWithError answers a command packet of the client with an `QueryInterruptedError`.
+// The answer continues the packet sequence started by the command, so it carries the sequence id that follows
+// the command's: clients verify it and give up the connection ("commands out of sync") when it is wrong.
+// https://dev.mysql.com/doc/dev/mysql-server/latest/page_protocol_basic_packets.html#sect_protocol_basic_packets_sequence_id
+func (handler *Handler) answerClientWithError(msg string, request *Packet) error {
+	sequenceID := request.nextSequenceNumber()
+	request.SetData(NewQueryInterruptedError(handler.Capabilities.IsClientSetProtocol41(), msg))
+	request.header[SequenceIDIndex] = sequenceID
+	_, err := handler.clientConnection.Write(request.Dump())
+	return err
+}
+
+// sendClientError replaces a packet of the database's response with an `QueryInterruptedError` with a custom message
+// (the packet keeps its place in the sequence)
 func (handler *Handler) sendClientError(msg string, packet *Packet) error {
 	errPacket := NewQueryInterruptedError(handler.Capabilities.IsClientSetProtocol41(), msg)
 	packet.SetData(errPacket)
